@@ -270,7 +270,7 @@ def variants(d, ctx, full):
     must = []
     for nd in d["nd"]:
         must.append((d["dt"][0], "native", "contig", nd))
-        must.append((d["dt"][0], "swapped", "strided", nd))
+    must.append((d["dt"][0], "swapped", "strided", d["nd"][0]))
     must.append((d["dt"][0], "native", "strided", d["nd"][0]))
     if len(d["dt"]) > 1:
         must.append((d["dt"][1], "swapped", "contig", d["nd"][0]))
@@ -586,7 +586,7 @@ def run(ctx, replay=None):
                 "C sources.  STATIC: one obligation `frame_ok skeleton params = true` per (public function, option valuation) driver, skeleton regenerated "
                 "from the scratch build's sources (frame_ok is sound AND exact for the skeleton semantics: C15_frame_ok_decides).  DYNAMIC: every driver run on the matrix {native, swapped(, mixed)} x {contiguous, strided} x "
                 "{0-d,1-d,2-d} x {f8,f4,i8,i4 | structured}, snapshots of every non-exempt array argument before/after compared in Coq.  "
-                "quick: per driver always the no-conversion corner (native, contiguous, first dtype) and the swapped+strided corner per ndim plus a seeded sample; "
+                "quick: per driver always the no-conversion corner (native, contiguous, first dtype) per ndim, the swapped+strided and native+strided corners, one corner per further dtype, plus a seeded sample; "
                 "thorough: the full matrix x 2 value seeds.  A failed obligation without a dynamic witness triggers a full-matrix search for that driver.  "
                 "non-trivial: the argument needs an internal conversion (non-native, strided or not f8).  distinct by canonical JSON of the case.")
     ctx.trusted = TRUSTED + ["EXEMPT (documented in-place, no obligation): " + x for x in exemptions()] + ["LIMITATION: " + x for x in LIMITATIONS]
@@ -598,6 +598,13 @@ def run(ctx, replay=None):
         for n in failed:
             ctx.violation("static obligation frame_ok %s fails: %s" % (n, why.get(n)), {"kind": "static-obligation", "driver": n, "why": why.get(n)},
                           found_input=False)
+        return
+    if replay is not None and replay.get("kind") == "failing-input" and replay.get("case", {}).get("driver") in BY_NAME:
+        # replay of one dynamic case: only the obligation of its driver is regenerated; the case decides
+        ex, failed, why = static_step(ctx, only={replay["case"]["driver"]})
+        differential(ctx, PRE, ENTRIES, replay)
+        for n in failed:
+            ctx.notes.append("static obligation %s FAILED (%s)" % (n, why.get(n)))
         return
     ex, failed, why = static_step(ctx)
     differential(ctx, PRE, ENTRIES, replay)
